@@ -690,7 +690,7 @@ def run_plain(case):
         "case_digest": prog_digest,
         "nontrivial": out["stats"].get("exit", 0) >= 2,
         "sample": {"mode": case["mode"], "threads": threads, "schedule_len": len(case.get("schedule") or [])}
-        if nwith <= 6 and out["stats"].get("exit", 0) >= 2
+        if nwith <= 8 and out["stats"].get("exit", 0) >= 1
         else None,
     }
 
